@@ -50,6 +50,16 @@ CLAIMED = {
   text="Exploration of realistic maps incl. degenerate families x settings reachable in the game x prefixes x consistent score states; every f64 field of difficulty, strains and performance is checked.",
   note="AR/OD/HP/CS/hit-window fields are only required to be finite.",
   ref="DESIGN.md §4 C09"),
+ "C10": dict(
+  technique="differential testing across four builds: one seeded generated workload (proptest-drawn choice tapes) executed by binaries compiled with each cargo feature combination; canonical result lines compared",
+  text="Exploration: the same generated cases (incl. the long-gap family with up to 180000 zero strain sections) are computed by the default, raw_strains, sync and raw_strains+sync builds; every difficulty / strains / performance / gradual line must be numerically equal.",
+  note="Lines longer than 4000 characters are compared by length and FNV hash; replay re-runs one case through all four builds with full lines.",
+  ref="DESIGN.md §4 C10"),
+ "C11": dict(
+  technique="model-based " + PBT + " of the strain list against a plain-Vec reference, generated move/drop/thread histories of gradual calculators against never-moved twins, and a metamorphic decoder oracle; every sub-check runs under the dev profile (debug assertions) and under AddressSanitizer, the strain list also with the raw_strains build",
+  text="Exploration of operation sequences / lifetimes / slider-path texts with semantic oracles, plus ASan and debug assertions as additional oracles on the same generated inputs (a sanitizer report aborts the run and is attributed to a case through the case log).",
+  note="ASan only sees accesses that happen in an execution; histories dereference after every move. Miri is deliberately not used (see DESIGN).",
+  ref="DESIGN.md §4 C11"),
  "C12": dict(
   technique=PBT + " over directly constructed attribute shapes (incl. all-zero counts) and builder specifications with six validity predicates (P1-P6) on generate_state()/calculate()",
   text="Exploration of all four modes x shapes x origins x every subset of provided values (in range, beyond N, huge) x priorities x passed_objects: misses bounded and kept, fitting results never lowered, remainder filled to exactly N, combo bounded, idempotence, calculate() == explicit generated state.",
@@ -80,6 +90,11 @@ CLAIMED = {
   text="Exploration over osu maps x target x key mods 1K-10K: ordering, durations, control-point strictness, taiko sound pairing, mania column bounds and key count, catch identity.",
   note="1/5 of source maps use the adversarial numeric profile.",
   ref="DESIGN.md §4 C19"),
+ "C20": dict(
+  technique="schedule-perturbing " + PBT + ": generated job lists, thread counts, assignments, sharing modes, yields/spins and hand-over schedules; oracle = equality with the sequential run; default and sync builds, ThreadSanitizer in the thorough tier",
+  text="Exploration: thread-pool runs over shared maps (by reference and Arc) must reproduce the sequential results; a gradual calculator handed around a ring of threads must reproduce the single-thread sequence (taiko with the sync feature).",
+  note="The harness owns assignments, hand-over points and perturbations, not the OS scheduler; all schedules are not enumerable from user space. TSan (thorough) reports races even when values agree.",
+  ref="DESIGN.md §4 C20"),
  "C15": dict(
   technique="model-based (stateful) " + PBT + ": generated call histories over next/nth/len/size_hint/adaptors checked against a reference cursor model",
   text="Exploration over call histories: a reference sequence from plain next() plus a cursor model predicts every observation (values, len, size_hint, None after exhaustion, adaptor outputs); GradualPerformance step arithmetic likewise.",
